@@ -12,8 +12,15 @@ HARNESS = os.path.join(BUILD, "harness")
 ALLOWED_AXIOMS = {"propext", "Classical.choice", "Quot.sound"}
 FORBIDDEN = re.compile(r"\bsorry\b|\badmit\b|^\s*axiom\s|native_decide|bv_decide|implemented_by|\bunsafe\s|maxHeartbeats\s+0\b")
 
-GOENV = dict(os.environ, GOFLAGS="-mod=mod", GOPROXY="off", GOSUMDB="off", GOTOOLCHAIN="local",
-             GOCACHE=os.environ.get("GOCACHE", os.path.join(BUILD, "gocache")))
+GOENV = dict(os.environ, GOFLAGS="-mod=mod", GOPROXY="off", GOSUMDB="off", GOTOOLCHAIN="local")
+
+
+def point_gomod_at_repo():
+    """The harness module reaches zrnt through a replace directive; it normally points at /repo.
+    In a scratch copy of /verif (tools/mutcheck.sh) VERIF_REPO points it at a scratch worktree."""
+    subprocess.run(["cp", os.path.join(REPO, "go.sum"), os.path.join(GO, "go.sum")])
+    if REPO != "/repo":
+        subprocess.run(["go", "mod", "edit", "-replace", "github.com/protolambda/zrnt=" + REPO], cwd=GO, env=GOENV)
 
 
 def sh(cmd, cwd=None, env=None, timeout=None, stdin=None):
@@ -41,7 +48,7 @@ def regen(log):
     """Regenerate lean/Zrnt/Gen/* from /repo's working tree. Returns list of (name, ok, output)."""
     res = []
     os.makedirs(BUILD, exist_ok=True)
-    subprocess.run(["cp", os.path.join(REPO, "go.sum"), os.path.join(GO, "go.sum")])
+    point_gomod_at_repo()
     for name, pkg in (("go2lean", "./cmd/go2lean"), ("extract", "./cmd/extract")):
         if not os.path.exists(os.path.join(GO, pkg, "main.go")):
             continue
@@ -133,7 +140,7 @@ def grep_forbidden(paths):
 # harness / zmodel correspondence
 
 def build_harness(log):
-    subprocess.run(["cp", os.path.join(REPO, "go.sum"), os.path.join(GO, "go.sum")])
+    point_gomod_at_repo()
     rc, out = sh(["go", "build", "-tags", "verif", "-o", HARNESS, "./cmd/harness"], cwd=GO, env=GOENV, timeout=1800)
     if rc != 0:
         log("harness build failed:\n" + out[-4000:])
